@@ -315,6 +315,8 @@ def _rest_class(s, pipe):
     return ''
   if not phys.all_supported(s):
     return ':stack-mixing-hinge-and-slide-not-S*H'
+  if not phys.orthogonal_stacks(s):
+    return ':non-orthogonal-stack-axes'
   if pipe == 'positional':
     for l in s['links']:
       if l['kind'] == 'HHH' and any(r is not None for r in l['range']) and \
